@@ -169,6 +169,22 @@ pub fn c17(args: &Args) {
         out.emit(babai_event(&f, &g, &thin(&f), &thin(&g), "FG-thinned-fg"));
     }
     out.emit(babai_event(&[4, 1], &[1, 2], &[3, 1], &[1, 1], "FG-smaller-than-fg"));
+    // (F, G) one BYTE-LENGTH CLASS below (f, g) and not reduced: max|f,g| just above 2^8 (2^16) while max|F,G| stays below it, the
+    // rounded quotient being +-1 (F, G = +-3/5 of f, g) -- an exit test on the coefficient sizes instead of on the quotient would
+    // skip the reduction in one version only (seeded change C17-h)
+    out.emit(babai_event(&[400, 0, 0, 0], &[0, 0, 0, 1], &[240, 0, 0, 0], &[0, 0, 0, 0], "FG-byte-class-below-fg"));
+    let mut brng = rng_for(seed, "c17-byteclass"); // its own stream: the families below keep the inputs they had
+    for &(n, bound) in &[(2usize, 256i64), (4, 256), (16, 256), (64, 256), (512, 256), (4, 65536), (16, 65536)] {
+        let mut f: Vec<i64> = (0..n).map(|_| brng.gen_range(-bound * 5 / 4..=bound * 5 / 4)).collect();
+        let g: Vec<i64> = (0..n).map(|_| brng.gen_range(-bound * 5 / 4..=bound * 5 / 4)).collect();
+        f[0] = bound * 5 / 4 + 1; // the largest coefficient, in the upper class for certain
+        let scale = |v: &Vec<i64>, num: i64, den: i64| v.iter().map(|&x| (x * num).div_euclid(den)).collect::<Vec<i64>>();
+        for &num in &[3i64, -3] {
+            let (cf, cg) = (scale(&f, num, 5), scale(&g, num, 5));
+            debug_assert!(cf.iter().chain(cg.iter()).all(|x| x.abs() < bound));
+            out.emit(babai_event(&f, &g, &cf, &cg, "FG-byte-class-below-fg"));
+        }
+    }
     // ill-conditioned (f, g): tiny at some roots of x^n + 1, so the quotient has coefficients far beyond those of (F, G)
     for &n in &[16usize, 256] {
         let mut f1 = vec![0i64; n]; // (1 + x)^2
